@@ -207,11 +207,14 @@ def check(ctx):
         g = [c for c, _ in pth.calls() if call_name(c).endswith("get_session_id")]
         if not g:
             continue
+        # facts forced by the path conditions, on the positive form of every atom (`x not in d` True == `x in d` False)
+        from ..paths import implied_atoms
         facts = {}
-        from .c12 import flatten_conds
-        facts = flatten_conds(pth.conds())
-        ok = facts.get("self.has_avp('session_id_avp')") is True and facts.get("'session_id' not in avps.keys()") is True \
-            and facts.get("'origin_host' in avps.keys()") is True and \
+        for t_, tr_ in pth.conds():
+            facts.update(implied_atoms(t_, tr_))
+        has_sid = facts.get("'session_id' in avps.keys()", facts.get("'session_id' in avps"))
+        has_oh = facts.get("'origin_host' in avps.keys()", facts.get("'origin_host' in avps"))
+        ok = facts.get("self.has_avp('session_id_avp')") is True and has_sid is False and has_oh is True and \
             ast.unparse(g[0].args[0]) == "avps['origin_host']"
         if not ok:
             break
